@@ -133,6 +133,16 @@ def status_fn(spec):
     return f
 
 
+def second_endpoint(app):
+    """a second endpoint, added after the one under test, served by another dispatcher with another registry: requests
+    to the endpoint under test must still reach its own dispatcher"""
+    d = app.add_endpoint('/zz-other')
+
+    def other_only():
+        return 'other'
+    d.add(other_only, 'other_only')
+
+
 def register(dispatcher, cfg):
     for m in cfg['methods']:
         f = S.make_callable(m['name'], m['sig'], False, False)
@@ -151,6 +161,7 @@ def get_app(integration, c):
         from pjrpc.server.integration import aiohttp as ai
         app = ai.Application(c['prefix'], **kw)
         register(app.dispatcher, c['cfg'])
+        second_endpoint(app)
 
         async def start():
             client = TestClient(TestServer(app.app))
@@ -164,6 +175,7 @@ def get_app(integration, c):
         app = flask.Flask(f'verif{len(_APPS)}')
         rpc = fl.JsonRPC(c['prefix'], **kw)
         register(rpc.dispatcher, c['cfg'])
+        second_endpoint(rpc)
         rpc.init_app(app)
         _APPS[key] = app.test_client()
     else:
